@@ -250,6 +250,71 @@ fn binding_type(v: &Value) -> Value {
     }
 }
 
+/// Flattened view of a field type: outer-to-inner array lengths and the leaf.
+pub fn flat_type(t: &syn::Type) -> Value {
+    let mut dims: Vec<Value> = vec![];
+    let mut cur = t;
+    loop {
+        match cur {
+            syn::Type::Array(a) => {
+                let n = match &a.len {
+                    syn::Expr::Lit(l) => match &l.lit {
+                        syn::Lit::Int(i) => i.base10_digits().to_string(),
+                        o => o.to_token_stream().to_string(),
+                    },
+                    o => o.to_token_stream().to_string(),
+                };
+                dims.push(match n.parse::<i64>() {
+                    Ok(v) if v <= i32::MAX as i64 => json!(v),
+                    _ => json!(n),
+                });
+                cur = &a.elem;
+            }
+            syn::Type::Paren(p) => cur = &p.elem,
+            syn::Type::Group(g) => cur = &g.elem,
+            _ => break,
+        }
+    }
+    let leaf = match cur {
+        syn::Type::Path(p) => {
+            let ps = path_str(&p.path);
+            let last = p.path.segments.last();
+            let mut targs: Vec<Value> = vec![];
+            let mut cargs: Vec<Value> = vec![];
+            if let Some(seg) = last {
+                if let syn::PathArguments::AngleBracketed(ab) = &seg.arguments {
+                    for a in &ab.args {
+                        match a {
+                            syn::GenericArgument::Type(t) => targs.push(flat_type(t)),
+                            syn::GenericArgument::Const(e) => cargs.push(json!(e.to_token_stream().to_string().parse::<i64>().unwrap_or(-1))),
+                            _ => {}
+                        }
+                    }
+                }
+            }
+            // integer literals in generic position parse as types/consts depending on syn; normalise both
+            let prims = ["f32", "f64", "i32", "u32", "i64", "u64", "bool", "i8", "u8", "i16", "u16", "f16"];
+            if prims.contains(&ps.as_str()) {
+                json!({"fam": "prim", "s": ps})
+            } else if ps.starts_with("glam::") {
+                json!({"fam": "glam", "name": ps.trim_start_matches("glam::")})
+            } else if ps.starts_with("nalgebra::") {
+                json!({"fam": "nalgebra", "name": ps.trim_start_matches("nalgebra::"),
+                       "s": targs.get(0).and_then(|t| t["leaf"]["s"].as_str().map(|x| x.to_string())),
+                       "dims": cargs})
+            } else if ps == "Vec" || ps == "std::vec::Vec" {
+                json!({"fam": "vec_of", "inner": targs.get(0).cloned()})
+            } else if !ps.contains("::") {
+                json!({"fam": "struct", "name": ps})
+            } else {
+                json!({"fam": "?", "raw": ps})
+            }
+        }
+        other => json!({"fam": "?", "raw": toks(other)}),
+    };
+    json!({"dims": dims, "leaf": leaf})
+}
+
 fn derives_of(attrs: &[syn::Attribute]) -> (Vec<String>, bool, Vec<String>) {
     let mut derives = vec![];
     let mut repr_c = false;
@@ -339,6 +404,7 @@ pub fn project(text: &str, wgsl_source: &str) -> Result<Value, String> {
                     .map(|f| {
                         json!({"name": f.ident.as_ref().map(|i| i.to_string()),
                                "ty": toks(&f.ty).replace(' ', ""),
+                               "flat": flat_type(&f.ty),
                                "attrs": f.attrs.iter().map(|a| toks(&a.meta).replace(' ', "")).collect::<Vec<_>>(),
                                "pub": matches!(f.vis, syn::Visibility::Public(_))})
                     })
